@@ -19,6 +19,7 @@ def run(ck, fb):
     r08j(ck, fb)
     r08k(ck, fb)
     r08l(ck, fb)
+    r08m(ck, fb)
     ck.borrow('rules.c05', {'R05h': 'R08i'}, 'the membership saved when a snapshot is installed must be the one recorded in that snapshot')
 
 
@@ -366,3 +367,19 @@ def r08l(ck, fb, R='R08l'):
                'install that fails before completion every later snapshot - also the one the leader sends to catch this node up - is refused '
                '("An snapshots is being packaged") until the process is restarted' % ', '.join(sorted(set(x[0].name.split('::')[-1] for x in sets))),
                'guard %s, %d setters' % ('present' if guard else 'absent', len(sets)))
+
+
+def r08m(ck, fb, R='R08m'):
+    ck.rule(R, 'a snapshot record replaces what the follower holds, all of it: ConfigActor::inner_set_config (every config record of an installed '
+               'snapshot, every imported value) stores the value and indexes the key on every path. "Same md5, nothing to do" is true of the content '
+               'only: the record also carries type, description, history and modification time, which a lagging follower has in an older state')
+    b = ck.body('rnacos::config::core::ConfigActor::inner_set_config', R)
+    if not b:
+        return
+    ins = util.mut_calls_on_field(b, 'cache', r'HashMap::<K, V, S, A>::insert$', deep=1)
+    idx = util.mut_calls_on_field(b, 'tenant_index', r'TenantIndex::insert_config$', deep=1)
+    ck.require(bool(ins) and cfg.must_pass_before_return(b, 0, {s.bb for s in ins}), R, 'inner_set_config:always-stores', b.where(),
+               'inner_set_config can return without storing the value it was given: a record of an installed snapshot whose content equals what the '
+               'follower serves is dropped together with its type, description and history', 'stored on every path')
+    ck.require(bool(idx) and cfg.must_pass_before_return(b, 0, {s.bb for s in idx}), R, 'inner_set_config:always-indexes', b.where(),
+               'inner_set_config can return without indexing the key: the stored config is missing from listings')
